@@ -35,7 +35,8 @@ class Panic:
 
 
 class Interp:
-    def __init__(self, prog, state_adt="CSPSolverStateInternal", track_x=None, max_iter=6):
+    def __init__(self, prog, state_adt="CSPSolverStateInternal", track_x=None, max_iter=6,
+                 bool_model=None):
         self.p = prog
         self.adt = prog.adt(state_adt)
         self.adt_path = self.adt["path"]
@@ -47,6 +48,7 @@ class Interp:
         self.panics = {}          # key -> Panic
         self.stack = []
         self.track_x = track_x or (lambda call, st: st)   # hook: call -> st transformer
+        self.bool_model = bool_model   # hook: (caller fn, call) -> True / False / None
         self.relevant = self._relevant()
         self.steps = 0
         self.ext_discr = {}
@@ -584,6 +586,10 @@ class Interp:
         tdef = c.target_def or ""
         argtags = tuple(self.tag_op(vals, st, a) for a in c.args)
         st = self.track_x(c, st)
+        if self.bool_model is not None:
+            bm = self.bool_model(fn, c)
+            if bm is not None:
+                return [(st, ("bool", bool(bm)))]
         # ---- level primitives
         if tdef.endswith("Assignments::increase_decision_level"):
             return [((st[0], "+") + st[2:], None)]
